@@ -5,6 +5,7 @@ import PetgraphModel.Oracle.C09Judge
 import PetgraphModel.Model.C09Algo
 import PetgraphModel.Model.C09Space
 import PetgraphModel.Oracle.C09Checks
+import PetgraphModel.Oracle.C09Adapt
 /-
 C09 driver.  Requests (after a `graph … enc=<encoding>` line), see harness/src/c09.rs:
 
@@ -19,6 +20,12 @@ C09 driver.  Requests (after a `graph … enc=<encoding>` line), see harness/src
   toposort fresh|reuse         => ok a,b,c | err x
   cond <0|1> eo=<edge ids>     => <members;..>|<s:t:w,..>
   space new|default|foreign <m> => -      the DfsSpace the following `reuse` lines go through
+  stalepath a b                => true|false   has_path_connecting with an id that is not a node
+  law <name> …                 => ok | VIOLATED <why>   a law the harness judged against the implementation itself
+
+Adaptor cases (wave 6): the `graph` line of a view behind `Reversed` / `EdgeFiltered` / `NodeFiltered` /
+`UndirectedAdaptor` / `&Frozen` carries `ad=<chain> bd= bnodes= bedges=`; `adaptOkB` (Oracle/C09Adapt.lean)
+recomputes the abstract graph of the view from the base and the chain and compares it with the line's graph.
 
 Side conditions (wave 4): every hypothesis of the C09 theorems that concerns the concrete case is
 evaluated here (`Oracle/C09Checks.lean`; `Theorems/C09.lean`, "run-time checks of the hypotheses"):
@@ -39,6 +46,8 @@ structure DState where
   enc : String := ""
   /-- the model of the `DfsSpace` the harness reuses (`space` line) -/
   space : Option Space := none
+  /-- the view of this case shows the recorded shape of open finding D6 (see `d6View`) -/
+  d6 : Bool := false
 
 /-- the view's neighbour lists describe the abstract graph (as multisets) -/
 def viewOkB (v : View) : Bool :=
@@ -49,14 +58,72 @@ def caseOkB (v : View) : Bool := viewOkB v && wfB v.g && houtB v && ixOkB v && s
 
 def sideFail (name detail : String) : String := s!"SPECFAIL side condition {name} does not hold: {detail}"
 
-/-- the first side condition of the `graph` line that fails -/
-def caseWhy (v : View) : Option String :=
-  if !viewOkB v then some "SPECFAIL neighbour iteration of this encoding does not describe the abstract graph"
+/-- the first side condition of the `graph` line that fails (`viewKnown`: the neighbour lists were
+recognised as the recorded shape of an open finding, so `viewOkB` is not demanded) -/
+def caseWhy (v : View) (viewKnown : Bool := false) : Option String :=
+  if !viewKnown && !viewOkB v then some "SPECFAIL neighbour iteration of this encoding does not describe the abstract graph"
   else if !wfB v.g then some (sideFail "WellFormed" "node ids repeat or an edge endpoint is not a node")
   else if !houtB v then some (sideFail "hout" "the view lists neighbours for an id that is not a node")
   else if !ixOkB v then some (sideFail "IxOk" s!"to_index is not injective on the nodes or not below node_bound = {v.nb}")
   else if !sizeB v then some (sideFail "hsize" "2*|nodes|+1 exceeds usize::MAX")
   else none
+
+/-- an adaptor case: the line's graph must be the graph the adaptor chain presents over the base -/
+def adaptWhy (req : List String) (g : MGraph) : Option String :=
+  match field? req "ad" with
+  | none => none
+  | some chain =>
+    match parseAds chain with
+    | none => some s!"SPECFAIL unparsable adaptor chain {chain}"
+    | some ads =>
+      let base : MGraph := { directed := field? req "bd" == some "1",
+                             nodes := parseNats ((field? req "bnodes").getD "-"),
+                             edges := parseEdges ((field? req "bedges").getD "-") }
+      if !wfB base then some (sideFail "WellFormed" "the base graph of the adaptor repeats node ids or has an edge endpoint that is not a node")
+      else if adaptOkB base ads g then none
+      else some (sideFail "Adaptor" s!"the graph of this line is not what the adaptor chain {chain} presents over its base")
+
+/-- Open finding D6 (`MatrixGraph::edges_directed(b, Incoming)` reports `(b, a)` for an edge a→b), as it
+shows in C09 — two stacks over a directed `MatrixGraph` read that iterator without tolerating it:
+
+1. `NodeFiltered::edges_directed(_, Incoming)` tests `edge.source()` against the node filter, which under D6
+   is the node asked about, so it removes NO incoming edge of a kept node; an `EdgeFiltered` stacked on that
+   `NodeFiltered` (chain `nf+ef`) takes its `neighbors_directed(_, Incoming)` from it and lists filtered-out
+   predecessors.  Shape: successor lists right; the predecessor list of every kept node is exactly its
+   predecessor list in the graph whose node filter removed no edge.
+2. `Reversed::edges(n)` hands `edges_directed(n, Incoming)` on with the endpoints swapped, so under D6 its edge
+   references have `target = n`; `EdgeFiltered::neighbors` (chain `rev+ef`) takes `edge.target()` and lists `n`
+   itself once per kept predecessor.  Shape: predecessor lists right; the successor list of every node `a`
+   is `a` repeated as often as `a` has successors in the view's graph.
+
+Recognised narrowly: the base is a directed MatrixGraph, the chain is exactly one of the two, the lists have
+exactly that shape. -/
+def d6View (req : List String) (v : View) : Bool :=
+  let base : MGraph := { directed := field? req "bd" == some "1",
+                         nodes := parseNats ((field? req "bnodes").getD "-"),
+                         edges := parseEdges ((field? req "bedges").getD "-") }
+  let matrixd := ((field? req "enc").getD "").startsWith "matrixd" && base.directed
+  match (field? req "ad").bind parseAds with
+  | some [.nf k, .ef t] =>
+    let leaky := filterEdges { base with nodes := base.nodes.filter fun x => k.contains x } t
+    matrixd && !viewOkB v &&
+      v.g.nodes.all fun a => sameSet (v.succ a) (v.g.succ a) && sameSet (v.pred a) (leaky.pred a)
+  | some [.rev, .ef _] =>
+    matrixd && !viewOkB v &&
+      v.g.nodes.all fun a => sameSet (v.pred a) (v.g.pred a) && v.succ a == List.replicate (v.g.succ a).length a
+  | _ => false
+
+def knownD6 : String :=
+  "KNOWN D6 MatrixGraph::edges_directed(_, Incoming) reports (a, predecessor): NodeFiltered::edges_directed(_, Incoming) and Reversed::edges hand it on, so an EdgeFiltered over them lists filtered-out predecessors resp. the node itself"
+
+/-- in a case whose view shows a D6 shape, a wrong answer that is exactly what the mirror model computes on
+that view is D6 too; any other wrong answer is a SPECFAIL as usual -/
+-- (in such a case the view names ids that are not nodes, whose `to_index` the view cannot know, so the
+-- workspace-free models are the reference for the `reuse` lines too)
+def verdictD6 (d6 : Bool) (spec : Option String) (model impl : String) : String :=
+  match spec with
+  | some why => if d6 && model == impl then knownD6 else s!"SPECFAIL {why}"
+  | none => cmpExact model impl
 
 def verdict (spec : Option String) (model impl : String) : String :=
   match spec with
@@ -203,7 +270,8 @@ def hasPathRowsS (v : View) (nodes : List Nat) (ws : Space) : Option (List (Nat 
 
 def step (d : DState) (req : List String) (impl : String) : DState × String :=
   let g := d.v.g
-  let hashed := d.enc == "map"
+  let hashed := d.enc.startsWith "map"
+  let vd := verdictD6 d.d6
   match req with
   | "case" :: k :: _ => ({}, s!"case {k}")
   | "graph" :: _ =>
@@ -211,18 +279,30 @@ def step (d : DState) (req : List String) (impl : String) : DState × String :=
     | none => (d, "SPECFAIL unparsable graph line")
     | some v =>
       let enc := (field? req "enc").getD ""
-      match caseWhy v with
-      | none => ({ v := v, ok := true, enc := enc }, "ok")
+      let d6 := d6View req v
+      match caseWhy v d6 with
       | some why => ({ v := v, ok := false, enc := enc }, why)
+      | none =>
+        match adaptWhy req v.g with
+        | some why => ({ v := v, ok := false, enc := enc }, why)
+        | none => ({ v := v, ok := true, enc := enc, d6 := d6 }, if d6 then knownD6 else "ok")
   | ["space", kind, m] =>
     ({ d with space := some (mkSpace d.v hashed kind (m.toNat?.getD 0)) }, "ok")
+  | "law" :: name :: rest =>
+    -- a `TarjanScc` that ran on a graph with `m` nodes before: inside the range of `C09_tarjan_across`?
+    let m := (rest.head?.bind (·.toNat?)).getD 0
+    if (name == "tarjan-foreign" || name == "tarjan-after-mutation") && !acrossB m d.v then
+      (d, s!"SPECFAIL generator left the proved range: {m} + {g.nodes.length} nodes leave no room for the counters of a TarjanScc")
+    else if impl == "ok" then (d, "ok")
+    else if d.d6 && name == "iter-neighbors-directed" && (impl.splitOn "neighbors_directed(_, Outgoing)").length > 1 then (d, knownD6)
+    else (d, s!"SPECFAIL law {name} does not hold: {impl}")
   | _ =>
   if impl == "panic" then (d, s!"SPECFAIL {req.headD ""} panicked") else
   match req with
   | ["kosaraju"] =>
-    (d, verdict (judgeScc g (parseNatLists impl)) (showOpt showNatLists (kosaraju d.v)) impl)
+    (d, vd (judgeScc g (parseNatLists impl)) (showOpt showNatLists (kosaraju d.v)) impl)
   | ["tarjan"] =>
-    (d, verdict (judgeScc g (parseNatLists impl)) (showOpt (fun t => showNatLists t.out) (tjRun d.v {})) impl)
+    (d, vd (judgeScc g (parseNatLists impl)) (showOpt (fun t => showNatLists t.out) (tjRun d.v {})) impl)
   | ["tarjanrun"] =>
     match impl.splitOn "|" with
     | [c1, i1, c2, i2] =>
@@ -235,7 +315,7 @@ def step (d : DState) (req : List String) (impl : String) : DState × String :=
         | some t1 => match tjRun d.v t1 with
           | none => "FUEL"
           | some t2 => s!"{showNatLists t1.out}|{showIdx t1}|{showNatLists t2.out}|{showIdx t2}"
-      (d, verdict spec model impl)
+      (d, vd spec model impl)
     | _ => (d, s!"SPECFAIL malformed answer {impl}")
   | ["cc", er] =>
     let er := parsePairs ((er.drop 3).toString)
@@ -243,7 +323,7 @@ def step (d : DState) (req : List String) (impl : String) : DState × String :=
     if !compactB d.v then (d, sideFail "Compact" s!"some index below node_bound = {d.v.nb} belongs to no node") else
     let pairs := er.map fun p => (d.v.toIndex p.1, d.v.toIndex p.2)
     let model := match connectedComponents d.v.nb pairs with | some k => toString k | none => "panic"
-    (d, verdict (judgeCc g impl) model impl)
+    (d, vd (judgeCc g impl) model impl)
   | ["cycu", er] =>
     let er := parsePairs ((er.drop 3).toString)
     let pairs := er.map fun p => (d.v.toIndex p.1, d.v.toIndex p.2)
@@ -262,42 +342,50 @@ def step (d : DState) (req : List String) (impl : String) : DState × String :=
   | ["haspath", mode] =>
     let rows := parseRows impl
     let nodes := sortNats g.nodes
-    if mode == "reuse" then
+    if mode == "reuse" && !d.d6 then
       -- through the reused workspace (`space` line; a fresh one if the harness announced none)
       let ws := d.space.getD (Space.fresh d.v hashed)
       let (m, ws') := hasPathRowsS d.v nodes ws
-      ({ d with space := some ws' }, verdict (judgeRows g rows) (match m with | some r => showRows r | none => "FUEL") impl)
+      ({ d with space := some ws' }, vd (judgeRows g rows) (match m with | some r => showRows r | none => "FUEL") impl)
     else
     let model := nodes.map fun a => (a, nodes.filter fun b => hasPath d.v a b == some true)
     let fuelOut := g.nodes.any fun a => g.nodes.any fun b => (hasPath d.v a b).isNone
-    (d, verdict (judgeRows g rows) (if fuelOut then "FUEL" else showRows model) impl)
+    (d, vd (judgeRows g rows) (if fuelOut then "FUEL" else showRows model) impl)
   | ["haspath1", a, b] =>
     let (a, b) := (a.toNat?.getD 0, b.toNat?.getD 0)
     if !nodeB g a then (d, s!"SPECFAIL generator left the proved range: start node {a} is not a node") else
     let ws := d.space.getD (Space.fresh d.v hashed)
     let r := hasPathS d.v ws a b
-    let mr := match r with | .ret (x, _) => showBool x | .fuel => "FUEL" | .panic => "panic"
     let m := showOpt showBool (hasPath d.v a b)
-    ({ d with space := some (spaceAfter ws r) }, verdict (judgeHasPath1 g a b impl) s!"{mr} {m}" impl)
+    let mr := if d.d6 then m else match r with | .ret (x, _) => showBool x | .fuel => "FUEL" | .panic => "panic"
+    ({ d with space := some (spaceAfter ws r) }, vd (judgeHasPath1 g a b impl) s!"{mr} {m}" impl)
+  | ["stalepath", a, b] =>
+    let (a, b) := (a.toNat?.getD 0, b.toNat?.getD 0)
+    if nodeB g a && nodeB g b then (d, s!"SPECFAIL generator left the proved range: neither {a} nor {b} is an id without a node") else
+    -- `C09_has_path_stale`: an id that is not a node reaches itself only and is reached by itself only
+    let want := a == b
+    let spec := if impl == showBool want then none
+      else some s!"has_path_connecting({a},{b}) = {impl}, but one of the ids is not a node of the graph: it has no edges, so the answer is {showBool want}"
+    (d, verdict spec (showOpt showBool (hasPath d.v a b)) impl)
   | ["cycd"] =>
-    (d, verdict (judgeBool (cycDYes g) (cycDNo g) impl "\"some node lies on a directed cycle\"")
+    (d, vd (judgeBool (cycDYes g) (cycDNo g) impl "\"some node lies on a directed cycle\"")
       (showOpt showBool (cyclicDirected d.v)) impl)
   | ["bip", s] =>
     let s := s.toNat?.getD 0
     if !nodeB g s then (d, s!"SPECFAIL generator left the proved range: start node {s} is not a node") else
     let model := match bipartite d.v s with | .answer b => showBool b | .panic => "panic" | .fuel => "FUEL"
-    (d, verdict (judgeBip g s impl) model impl)
+    (d, vd (judgeBip g s impl) model impl)
   | ["toposort", mode] =>
-    if mode == "reuse" then
+    if mode == "reuse" && !d.d6 then
       let ws := d.space.getD (Space.fresh d.v hashed)
       let r := toposortS d.v ws
-      ({ d with space := some (spaceAfter ws r) }, verdict (judgeTopo g impl) (showTopo r) impl)
+      ({ d with space := some (spaceAfter ws r) }, vd (judgeTopo g impl) (showTopo r) impl)
     else
     let model := match toposort d.v with
       | none => "FUEL"
       | some (.ok l) => s!"ok {showNats l}"
       | some (.cycle x) => s!"err {x}"
-    (d, verdict (judgeTopo g impl) model impl)
+    (d, vd (judgeTopo g impl) model impl)
   | ["cond", acyc, eo] =>
     let eo := parseNats ((eo.drop 3).toString)
     let acyc := acyc == "1"
@@ -309,7 +397,7 @@ def step (d : DState) (req : List String) (impl : String) : DState × String :=
       let model := match condensation d.v eo acyc with
         | none => "FUEL"
         | some c => s!"{showNatLists c.nodes}|{showTriples c.edges}"
-      (d, verdict (judgeCond g acyc nodes es) model impl)
+      (d, vd (judgeCond g acyc nodes es) model impl)
     | _ => (d, s!"SPECFAIL malformed answer {impl}")
   | _ => (d, s!"SPECFAIL bad request {req}")
 
